@@ -19,6 +19,10 @@ CHECKS = {
          "TLC model checking of coordinate lookup / single-variable entry + trace validation"),
  "C17": ("E-eval", "EvalCases.tla: the operational model returns PyErr wherever Python would raise a foreign exception (math.log of x<=0, ...); TLC checks it is unreachable on the universe (DesignOK) and that no recorded outcome is a foreign exception, NaN, infinity or complex (cases whose exact intermediates overflow are excluded via the float layer)",
          "TLC model checking that every guard in front of every Python primitive suffices + trace validation"),
+ "C08": ("E-reduce", "ReduceCases.tla: SmReduce transcribes every rewrite rule, the children-first driver, both memo flags, constant folding, the NF pass and the step budget; for every input of the rule universe the complete derivation recorded from the real rewriter (single-stepped, flags included) is judged by TLC: every adjacent pair, the NF pair and the end-to-end pair are sound on every grid point w.r.t. the reference semantics; the model is run next to it (step-by-step conformance, and the design-level invariant that every model step is sound except the named finding)",
+         "TLC checking of the rewrite system model + step-by-step trace validation of the real rewriter"),
+ "C11": ("E-reduce", "ReduceCases.tla: on every recorded derivation TLC checks no structural form is revisited, the step count is within 2n^2+10, the final form is rule-free according to the spec's own NoRuleApplies (flags ignored), memo flags are truthful, and inputs of <= 20 nodes finish inside the library's budget without the warning",
+         "TLC checking of termination/no-revisit/rule-freeness on recorded derivations + model conformance"),
 }
 m = {"version": 1,
      "setup_cmd": "cd /verif && ./bin/setup.sh",
